@@ -1066,7 +1066,7 @@ theorem wake_kill_last (u t m polls : Nat) (cid : String) (mid : JVal) (waiting 
 def multiBody (rec : Rec) (fm : Nat) : Call → Nat → M (ForInStep Nat) :=
   fun c i s => (ForInStep.yield (i + 1), (rec (.call c (.frame fm i)) s).2)
 
-theorem awaitMulti_cons (rec : Rec) (c : Call) (cs : List Call) (k : Kont) (wt : Waiter) (s : State) :
+theorem awaitMulti_cons_unfold (rec : Rec) (c : Call) (cs : List Call) (k : Kont) (wt : Waiter) (s : State) :
     awaitMulti rec (c :: cs) k wt s =
       armFrame s.nextId (armFrame (s.nextId + 1)
         ((forIn (c :: cs) 0 (multiBody rec (s.nextId + 1)) : M Nat)
@@ -1085,7 +1085,7 @@ theorem awaitMulti_ne (rec : Rec) (cs : List Call) (hne : cs ≠ []) (k : Kont) 
                    nextId := s.nextId + 2 }).2).2 := by
   cases cs with
   | nil => exact absurd rfl hne
-  | cons c r => exact awaitMulti_cons rec c r k wt s
+  | cons c r => exact awaitMulti_cons_unfold rec c r k wt s
 
 /-- the parked `kill_process` coroutines of the workers `l`, started in this order with multi slots
     `idx, idx+1, …` and frame ids `nid, nid+2, …` at time `now` -/
